@@ -166,7 +166,14 @@ def stepOp (c : Case) (st : St) (opRec : Array String) : St :=
           -- 3. model state = observed state
           let r' := run st.repo evs
           if normRepo r' != normRepo o.repo then
-            { st with verdict := some (.differ "state" s!"op={n} {tag} model={repr (normRepo r')} observed={repr (normRepo o.repo)}") }
+            let a := normRepo r'; let b := normRepo o.repo
+            let only (x y : List String) := x.filter (fun i => !(y.contains i))
+            let ids (r : Repo) := r.packs.map (fun q => "pack:" ++ q.1) ++ r.idx.map (fun q => "index:" ++ q.1) ++ r.snaps.map (fun q => "snap:" ++ q.1)
+            let changed := (a.packs.filter (fun q => !(b.packs.contains q))).map (fun q => "pack:" ++ q.1) ++
+              (a.idx.filter (fun q => !(b.idx.contains q))).map (fun q => "index:" ++ q.1) ++
+              (a.snaps.filter (fun q => !(b.snaps.contains q))).map (fun q => "snap:" ++ q.1)
+            { st with verdict := some (.differ "state"
+                s!"op={n} {tag} only-in-model={only (ids a) (ids b)} only-observed={only (ids b) (ids a)} differing-content={changed}") }
           else
           -- 4. classification
           match classifyDiff o k with
